@@ -206,7 +206,7 @@ impl<C> RunOut<C> {
 }
 
 pub trait Scenario: Sync + Send + 'static {
-    type Case: Clone + Send + 'static;
+    type Case: Clone + Send + Sync + 'static;
     fn id(&self) -> &'static str;
     fn name(&self) -> &'static str;
     fn level(&self) -> &'static str;
@@ -342,9 +342,28 @@ impl Opts {
 // minimiser
 // ---------------------------------------------------------------------------
 
+/// Runs are executed in blocks of this many consecutive run indices; each block gets a thread of its own and
+/// executes its runs in order. Whatever per-thread state the library keeps (scratch buffers, caches in
+/// `thread_local!`s) therefore starts out fresh at every block boundary, and what a run sees is a function of
+/// (seed, the runs before it in its block) -- never of how the scheduler spread runs over workers. A violation that
+/// does not reproduce from its case alone is reported with the block prefix that led up to it (`history` in the
+/// replay file), minimised, and replays by executing that history on one thread.
+pub const BLOCK: u64 = 32;
+
+/// Runs `f` on a thread of its own (256 MiB of stack) and returns its result: a fresh set of thread-locals.
+pub fn isolated<R: Send>(f: impl FnOnce() -> R + Send) -> R {
+    std::thread::scope(|sc| {
+        let h = std::thread::Builder::new().stack_size(256 << 20).spawn_scoped(sc, f).expect("spawn run thread");
+        match h.join() {
+            Ok(r) => r,
+            Err(e) => std::panic::resume_unwind(e),
+        }
+    })
+}
+
 fn first_with_class<S: Scenario>(s: &S, case: &S::Case, class: &str) -> Option<(Viol, S::Case)> {
     let mut scratch = Stats::default();
-    let out = match guard(|| s.exec(case, &mut scratch)) {
+    let out = match isolated(|| guard(|| s.exec(case, &mut scratch))) {
         Ok(out) => out,
         Err(p) => RunOut { digest: 0, violations: vec![(Viol { class: format!("oracle_panic:{}", p.loc), detail: p.msg }, None)] },
     };
@@ -354,6 +373,73 @@ fn first_with_class<S: Scenario>(s: &S, case: &S::Case, class: &str) -> Option<(
         }
     }
     None
+}
+
+/// Executes `cases` in order on one fresh thread; the violation of class `class` shown by the LAST one, if any.
+fn history_with_class<S: Scenario>(s: &S, cases: &[S::Case], class: &str) -> Option<Viol> {
+    isolated(|| {
+        let mut scratch = Stats::default();
+        let mut last = None;
+        for c in cases {
+            last = Some(match guard(|| s.exec(c, &mut scratch)) {
+                Ok(out) => out.violations.into_iter().map(|(v, _)| v).collect::<Vec<_>>(),
+                Err(p) => vec![Viol { class: format!("oracle_panic:{}", p.loc), detail: p.msg }],
+            });
+        }
+        last.and_then(|vs| vs.into_iter().find(|v| v.class == class))
+    })
+}
+
+/// Drops earlier runs from a history while the last one keeps showing the class (ddmin: halves, then single runs).
+fn minimise_history<S: Scenario>(s: &S, mut cases: Vec<S::Case>, class: &str) -> (Vec<S::Case>, u64) {
+    let mut steps = 0;
+    let mut budget = 300u32;
+    let mut chunk = (cases.len().saturating_sub(1) / 2).max(1);
+    while cases.len() > 1 && budget > 0 {
+        let mut progressed = false;
+        let mut i = 0;
+        while i + 1 < cases.len() && budget > 0 {
+            let hi = (i + chunk).min(cases.len() - 1);
+            let mut cand = cases[..i].to_vec();
+            cand.extend_from_slice(&cases[hi..]);
+            budget -= 1;
+            heartbeat();
+            if history_with_class(s, &cand, class).is_some() {
+                cases = cand;
+                steps += 1;
+                progressed = true;
+            } else {
+                i = hi;
+            }
+        }
+        if chunk == 1 && !progressed {
+            break;
+        }
+        chunk = (chunk / 2).max(1);
+    }
+    // then the cases themselves, each with the scenario's own shrinker, while the last one keeps showing the class
+    let started = Instant::now();
+    let mut budget = 1500u32;
+    'outer: loop {
+        for k in (0..cases.len()).rev() {
+            for cand in s.shrink(&cases[k]) {
+                if budget == 0 || started.elapsed().as_secs() > 90 {
+                    break 'outer;
+                }
+                budget -= 1;
+                heartbeat();
+                let mut h = cases.clone();
+                h[k] = cand;
+                if history_with_class(s, &h, class).is_some() {
+                    cases = h;
+                    steps += 1;
+                    continue 'outer;
+                }
+            }
+        }
+        break;
+    }
+    (cases, steps)
 }
 
 /// Greedy shrinking that keeps the violation class fixed.
@@ -406,9 +492,25 @@ pub fn replay<S: Scenario>(s: S, j: &J, timeout_s: u64) -> i32 {
         }
     };
     let id = s.id();
+    // a history: the runs that preceded the violating one on its thread, executed first, in order, on the same thread
+    let mut earlier = vec![];
+    if let Some(h) = j["history"].as_array() {
+        for c in h {
+            match s.from_json(c) {
+                Ok(c) => earlier.push(c),
+                Err(e) => {
+                    eprintln!("HARNESS-ERROR: cannot read history: {e}");
+                    return 2;
+                }
+            }
+        }
+    }
     let (tx, rx) = std::sync::mpsc::channel();
     let th = std::thread::Builder::new().stack_size(256 << 20).spawn(move || {
         let mut st = Stats::default();
+        for c in &earlier {
+            let _ = guard(|| s.exec(c, &mut st));
+        }
         let viols = match guard(|| s.exec(&case, &mut st)) {
             Ok(out) => out.violations.into_iter().map(|(v, _)| v).collect::<Vec<Viol>>(),
             Err(p) => vec![Viol { class: format!("oracle_panic:{}", p.loc), detail: p.msg }],
@@ -561,7 +663,7 @@ pub fn run_inner<S: Scenario>(s: S, o: &Opts) -> i32 {
         s.name(), s.id(), o.tier, o.seed, o.from, end, o.threads
     );
     let s = Arc::new(s);
-    let next = Arc::new(AtomicU64::new(o.from));
+    let next = Arc::new(AtomicU64::new(o.from / BLOCK));
     let shared = Arc::new(Shared {
         seen: Mutex::new(BTreeMap::new()),
         reports: Mutex::new(vec![]),
@@ -630,10 +732,15 @@ pub fn run_inner<S: Scenario>(s: S, o: &Opts) -> i32 {
                 let mut digests = vec![];
                 HEARTBEAT.with(|h| *h.borrow_mut() = Some((slots.clone(), w, t0)));
                 loop {
-                    let run = next.fetch_add(1, Ordering::SeqCst);
-                    if run >= end {
+                    let blk = next.fetch_add(1, Ordering::SeqCst);
+                    if blk * BLOCK >= end {
                         break;
                     }
+                    let (lo, hi) = ((blk * BLOCK).max(o.from), ((blk + 1) * BLOCK).min(end));
+                    let (s, o, known, shared, slots, stats, digests) = (&s, &o, &known, &shared, &slots, &mut stats, &mut digests);
+                    isolated(move || {
+                    HEARTBEAT.with(|h| *h.borrow_mut() = Some((slots.clone(), w, t0)));
+                    for run in lo..hi {
                     if o.announce {
                         use std::io::Write;
                         let so = std::io::stdout();
@@ -646,7 +753,7 @@ pub fn run_inner<S: Scenario>(s: S, o: &Opts) -> i32 {
                     let case = s.gen(o.seed, run);
                     // a panic of the oracle itself (the library drove it somewhere it assumed impossible) is a
                     // failed run with a replay, not the end of the batch
-                    let out = match guard(|| s.exec(&case, &mut stats)) {
+                    let out = match guard(|| s.exec(&case, stats)) {
                         Ok(out) => out,
                         Err(p) => RunOut {
                             digest: 0,
@@ -659,9 +766,11 @@ pub fn run_inner<S: Scenario>(s: S, o: &Opts) -> i32 {
                     d.u64(out.digest);
                     digests.push((run, d.finish()));
                     for (v, sub) in out.violations {
-                        handle_violation(&*s, &o, &known, &shared, run, &case, v, sub);
+                        handle_violation(&**s, o, known, shared, run, lo, &case, v, sub);
                     }
                     slots[w].0.store(0, Ordering::SeqCst);
+                    }
+                    });
                 }
                 shared.digests.lock().unwrap().extend(digests);
                 stats
@@ -796,6 +905,7 @@ fn handle_violation<S: Scenario>(
     known: &[Known],
     shared: &Shared,
     run: u64,
+    block_start: u64,
     case: &S::Case,
     v: Viol,
     sub: Option<S::Case>,
@@ -828,6 +938,39 @@ fn handle_violation<S: Scenario>(
     }
     let start = sub.unwrap_or_else(|| case.clone());
     let before = s.size(&start);
+    if first_with_class(s, &start, &v.class).is_none() {
+        // The case alone does not show it: the outcome depended on what earlier runs of this block left behind on
+        // the thread. The case is then the history: the block's runs up to this one, in order, on one fresh thread.
+        let mut hist: Vec<S::Case> = (block_start..run).map(|r| s.gen(o.seed, r)).collect();
+        hist.push(case.clone());
+        let n0 = hist.len();
+        let (hist, steps, reproduced) = match history_with_class(s, &hist, &v.class) {
+            Some(_) => {
+                let (h, st) = minimise_history(s, hist, &v.class);
+                (h, st, true)
+            }
+            None => (hist, 0, false),
+        };
+        let (last, earlier) = hist.split_last().unwrap();
+        let v = if reproduced { history_with_class(s, &hist, &v.class).unwrap_or(v) } else { v };
+        let j = json!({
+            "property": s.id(), "scenario": s.name(), "verif_seed": o.seed, "run": run,
+            "class": v.class,
+            "detail": format!("{} [this run shows it only after the {} earlier run(s) in `history` have executed on the same thread: state is carried from call to call outside the documents{}]",
+                v.detail, earlier.len(), if reproduced { "" } else { "; NOT reproduced when the block was re-executed: the state involved is not per-thread" }),
+            "history": earlier.iter().map(|c| s.to_json(c)).collect::<Vec<_>>(),
+            "case": s.to_json(last),
+            "minimised_from": json!({"runs_in_history": n0, "last_run": before}), "minimised_to": json!({"runs_in_history": hist.len(), "last_run": s.size(last)}), "shrink_steps": steps,
+            "replay": format!("/verif/check replay <this file>"),
+        });
+        let name = format!("{}-{}-{}-{:08x}-history", s.id(), o.seed, run, crate::rng::fnv_of(v.class.as_bytes()) as u32);
+        let path = write_replay(&o.replay_dir, &name, &j).unwrap_or_else(|e| format!("<unwritable: {e}>"));
+        shared.reports.lock().unwrap().push(Report {
+            line: format!("VIOLATION property={} replay={}\n  class={}\n  detail={}", s.id(), path, v.class, j["detail"].as_str().unwrap_or("")),
+            known: false,
+        });
+        return;
+    }
     let (min, viol, steps) = minimise(s, start, &v.class);
     let j = json!({
         "property": s.id(),
